@@ -1126,12 +1126,15 @@ type c16RaceOut struct {
 func TestVerifC16RegisterRace(t *testing.T) {
 	w := newVerifWriter(t, "c16_race_out.jsonl")
 	defer w.close()
-	rounds, g := 2500, 12
+	rounds, g, budget := 2500, 12, 5*time.Second
 	if os.Getenv("VERIF_TIER") == "thorough" {
-		rounds = 20000
+		rounds, budget = 20000, 40*time.Second
 	}
-	out := c16RaceOut{Rounds: rounds, Goroutines: g}
-	for round := 0; round < rounds && len(out.Violations) < 3; round++ {
+	out := c16RaceOut{Goroutines: g}
+	t0 := time.Now()
+	// time-boxed: on an overloaded machine the spinning contenders make a round slow
+	for round := 0; round < rounds && len(out.Violations) < 3 && time.Since(t0) < budget; round++ {
+		out.Rounds = round + 1
 		limit := 1 + round%3
 		pid := &PID{logger: log.DiscardLogger}
 		pid.reentrancy.Store(newReentrancyState(reentrancy.AllowAll, limit))
@@ -1149,7 +1152,10 @@ func TestVerifC16RegisterRace(t *testing.T) {
 					newRequestState(fmt.Sprintf("r%d-%d-1", round, i), reentrancy.AllowAll, pid),
 				}
 				ready.Done()
-				for !start.Load() { // spin: all contenders hit the admission check together
+				for spins := 0; !start.Load(); spins++ { // spin: all contenders hit the admission check together
+					if spins > 20000 {
+						runtime.Gosched()
+					}
 				}
 				for _, st := range sts {
 					if err := pid.registerRequestState(st); err == nil {
